@@ -100,8 +100,9 @@ Fixpoint wp (p : prog) (H : list hold) (K : bool) (Qr : val -> post) (Qt QF : po
       | OKeyUnlock => wp (k VUnit) H false Qr Qt QF
       | OKeyProbe => wp (k (VBool (negb K))) H K Qr Qt QF
       | OPoisoned _ | OSeePoison _ => forall b, wp (k (VBool b)) H K Qr Qt QF
-      | OPoison _ | OClearPoison _ | OMark _ | OWrite _ _ => wp (k VUnit) H K Qr Qt QF
-      | ORead _ _ => forall n, wp (k (VNat n)) H K Qr Qt QF
+      | OPoison _ | OClearPoison _ | OMark _ => wp (k VUnit) H K Qr Qt QF
+      | OWrite _ l => In (l, true) H /\ wp (k VUnit) H K Qr Qt QF          (* user data is written under the exclusive hold *)
+      | ORead _ l => (exists x, In (l, x) H) /\ forall n, wp (k (VNat n)) H K Qr Qt QF   (* and read under a hold *)
       end
   | Bind m k => wp m H K (fun v H' K' => wp (k v) H' K' Qr Qt QF) Qt QF
   | Catch b h => wp b H K Qr (fun H' K' => wp h H' K' (fun _ H'' K'' => Qt H'' K'') Qt QF) QF
@@ -118,7 +119,8 @@ Proof.
   - exact W.
   - now apply Hf.
   - destruct o as [r l| | | | | | | | | | | |]; try (eapply IH; eassumption); try exact W;
-      try (intros x; eapply IH; [..|apply W]; eassumption).
+      try (intros x; eapply IH; [..|apply W]; eassumption);
+      try (destruct W as [W1 W2]; split; [exact W1|]; first [eapply IH; eassumption | intros x; eapply IH; [..|apply W2]; eassumption]).
     destruct r; try (destruct W as [W1 W2]; split; [exact W1 || (eapply IH; eassumption)|eapply IH; eassumption]);
       try (eapply IH; eassumption).
   - eapply IHm; [| exact Ht | exact Hf | exact W]. intros v H' K' W'. cbn beta in *. eapply IHk; eassumption.
@@ -302,8 +304,8 @@ Proof.
   - exists H, K. split; [eapply agree_ext; [| |exact A]; intros; reflexivity|]. split; [eapply clean_ext; [| | |exact C]; intros; reflexivity|apply W].
   - exists H, K. split; [eapply agree_ext; [| |exact A]; intros; reflexivity|]. split; [eapply clean_ext; [| | |exact C]; intros; reflexivity|apply W].
   - exists H, K. split; [eapply agree_ext; [| |exact A]; intros; reflexivity|]. split; [eapply clean_ext; [| | |exact C]; intros; reflexivity|apply W].
-  - exists H, K. split; [eapply agree_ext; [| |exact A]; intros; reflexivity|]. split; [eapply clean_ext; [| | |exact C]; intros; reflexivity|apply W].
-  - exists H, K. split; [eapply agree_ext; [| |exact A]; intros; reflexivity|]. split; [eapply clean_ext; [| | |exact C]; intros; reflexivity|apply W].
+  - (* ORead *) exists H, K. split; [eapply agree_ext; [| |exact A]; intros; reflexivity|]. split; [eapply clean_ext; [| | |exact C]; intros; reflexivity|apply (proj2 W)].
+  - (* OWrite *) exists H, K. split; [eapply agree_ext; [| |exact A]; intros; reflexivity|]. split; [eapply clean_ext; [| | |exact C]; intros; reflexivity|apply (proj2 W)].
   - (* OKeyTry *) exists H, true. rewrite A3. split; [|split; [eapply clean_ext; [| | |exact C]; intros; reflexivity|exact W]].
     split; [exact (proj1 A)|]. split; [exact (proj1 (proj2 A))|]. cbn [set_keyf w_keyf]. apply upd_same.
   - (* OKeyUnlock *) exists H, false. split; [|split; [eapply clean_ext; [| | |exact C]; intros; reflexivity|exact W]].
@@ -372,11 +374,13 @@ Lemma wp_nextop p : forall H K Qr Qt QF,
   | NAbort => False
   | NFuel => QF H K
   | NOp (ORaw k l) => rop_blocking k = true -> rank_ok H l
+  | NOp (ORead _ l) => exists x, In (l, x) H
+  | NOp (OWrite _ l) => In (l, true) H
   | NOp _ => True
   end.
 Proof.
   induction p as [v| | | |o k IH|m IHm k IHk|b IHb h IHh]; intros H K Qr Qt QF W; cbn [nextop]; try exact W.
-  - destruct o as [r l| | | | | | | | | | | |]; try exact I. cbn [wp] in W.
+  - destruct o as [r l| | | | | | | | | | | |]; try exact I; cbn [wp] in W; try exact (proj1 W).
     intros B. destruct r; try discriminate B; exact (proj1 W).
   - cbn [wp] in W. pose proof (IHm H K _ _ _ W) as D.
     destruct (nextop m) as [v| | | |o]; try exact D. apply (IHk v H K Qr Qt QF D).
@@ -442,4 +446,56 @@ Proof.
     destruct (adv false false t h w') as [out2 w''|h' w'']; [|exact E]. destruct out2; exact E.
 Qed.
 
+
 End Logic.
+
+(* ---------------------------------------------------------------- exclusive means exclusive (any program, any world) *)
+Definition xwf (s : rawst) : Prop := writer s <> None -> readers s = [].
+Definition rawwf (w : world) : Prop := forall l, xwf (w_raw w l).
+
+Lemma raw_apply_xwf t k s pw : xwf s ->
+  match raw_apply t k s pw with AOk s' | ABool _ s' => xwf s' | _ => True end.
+Proof.
+  intros W. destruct s as [wr rd]. unfold xwf, raw_apply, is_free, no_writer, writer_is in *. cbn [writer readers] in *.
+  destruct k.
+  - destruct wr; cbn [is_none andb]; [exact I|]. destruct rd; cbn [is_nil]; [|exact I]. cbn [writer readers]. auto.
+  - destruct wr; cbn [is_none andb]; [exact W|]. destruct rd; cbn [is_nil]; [|exact W]. cbn [writer readers]. auto.
+  - destruct wr as [x|]; [|exact I]. destruct (Nat.eqb x t); [|exact I]. cbn [writer readers]. congruence.
+  - destruct wr; cbn [is_none andb]; [exact I|]. destruct (negb pw); [|exact I]. cbn [writer readers]. congruence.
+  - destruct wr; cbn [is_none andb]; [exact W|]. destruct (negb pw); [|exact W]. cbn [writer readers]. congruence.
+  - destruct (memb t rd); [|exact I]. cbn [writer readers]. intros N. rewrite (W N). reflexivity.
+Qed.
+
+Lemma rawwf_ext w w' : (forall l, w_raw w' l = w_raw w l) -> rawwf w -> rawwf w'.
+Proof. intros E R l. rewrite E. apply R. Qed.
+
+Lemma do_op_rawwf pw t o w : rawwf w ->
+  match do_op pw t o w with RDone _ w' | RPanic w' | RBlock w' => rawwf w' end.
+Proof.
+  intros R. destruct o as [k l| | | | | | | | | | | |]; cbn [do_op]; try (eapply rawwf_ext; [|exact R]; intros; reflexivity).
+  destruct (faulty w k l); [eapply rawwf_ext; [|exact R]; intros; reflexivity|].
+  pose proof (raw_apply_xwf t k (w_raw w l) (pw l) (R l)) as X.
+  destruct (raw_apply t k (w_raw w l) (pw l)) as [s'|bb s'| |]; try (eapply rawwf_ext; [|exact R]; intros; reflexivity);
+    intros l0; cbn [emit tick set_raw w_raw]; unfold upd; destruct (Nat.eqb l0 l); [exact X|apply R|exact X|apply R].
+Qed.
+
+Lemma step_rawwf pw t p : forall w, rawwf w ->
+  match step pw t p w with SStep _ w' | SBlock w' => rawwf w' | _ => True end.
+Proof.
+  induction p as [v| | | |o k IH|m IHm k IHk|b IHb h IHh]; intros w R; cbn [step]; try exact I.
+  - pose proof (do_op_rawwf pw t o w R) as D. destruct (do_op pw t o w); exact D.
+  - pose proof (IHm w R) as D. destruct (step pw t m w); try exact D. apply IHk. exact R.
+  - pose proof (IHb w R) as D. destruct (step pw t b w); try exact D.
+    pose proof (IHh w R) as E. destruct (step pw t h w); try exact E; exact I.
+Qed.
+
+Lemma adv_rawwf ra lr t p : forall w, rawwf w ->
+  match adv ra lr t p w with AFin _ w' | APark _ w' => rawwf w' end.
+Proof.
+  induction p as [v| | | |o k IH|m IHm k IHk|b IHb h IHh]; intros w R; cbn [adv]; try exact R.
+  - destruct (stops_here ra lr o); [exact R|].
+    pose proof (do_op_rawwf nopw t o w R) as D. destruct (do_op nopw t o w); try exact D; [apply IH; exact D|exact R].
+  - pose proof (IHm w R) as D. destruct (adv ra lr t m w) as [out w'|m' w']; [|exact D]. destruct out; try exact D. apply IHk. exact D.
+  - pose proof (IHb w R) as D. destruct (adv ra lr t b w) as [out w'|b' w']; [|exact D]. destruct out; try exact D.
+    pose proof (IHh w' D) as E. destruct (adv ra lr t h w') as [out2 w''|h' w'']; [|exact E]. destruct out2; exact E.
+Qed.
